@@ -121,6 +121,7 @@ class Evaluator:
         self.call_ctx: dict = {}  # call term -> [tuple of `with` context terms active at each evaluation of it]
         self.fuse_treemaps = True  # consecutive leafwise maps are one map (rules that read a staged computation stage by stage switch this off)
         self.inline_private_static = True  # Cls._helper(...) private static helpers are read at the call site (rules name the ones they want opaque)
+        self.ctor_methods: set = set()  # method names read through when the receiver is an object constructed in the evaluated code
         self.inline_tag_helpers = False  # Diff.<helper>(tree, T) is read as Diff.no_change / unknown_change(tree); the rules that judge those two methods read the helper's body instead
 
     def tag_helpers(self) -> dict:
@@ -490,6 +491,8 @@ def mk_cmp(op, a, b):
 def mk_phi(test, a, b):
     if a == b:
         return a
+    if is_t(test, "const") and (test[1] is None or isinstance(test[1], (bool, int, str))):
+        return a if test[1] else b  # a test on a literal is decided
     if is_t(test, "un") and test[1] == "not":
         # `x if not c else y` is `y if c else x`: one canonical form, whatever polarity the source spells
         return mk_phi(test[2], b, a)
@@ -907,6 +910,12 @@ class _Ctx:
     def run_body(self, body, env) -> FuncResult:
         res = FuncResult(None, [], [], env)
         self.res = res
+        # a generator whose body is one loop yielding one expression per element is the comprehension over that loop: its consumer sees the same sequence
+        for_ = _simple_generator(body)
+        if for_ is not None:
+            core_ = [for_]
+            comp_ = ast.ListComp(elt=core_[0].body[0].value.value, generators=[ast.comprehension(target=_load_store(core_[0].target), iter=core_[0].iter, ifs=[], is_async=0)])
+            body = [ast.fix_missing_locations(ast.copy_location(ast.Return(value=ast.copy_location(comp_, core_[0])), core_[0]))]
         out_env = self.block(body, env, ())
         res.env = out_env if out_env is not None else getattr(res, "env_at_return", env)
         # `return a if c else b` and `if c: return a` / `else: return b` are the same arms
@@ -1786,6 +1795,14 @@ class _Ctx:
                     r = self.inline(clo, (args if is_static else [obj] + list(args)), kwargs)
                     if r is not None:
                         return r
+        # a method the rule asks to read through, on an object constructed here: Cls(a, b).m(x) is m's body with self = Cls(a, b)
+        if is_t(obj, "ctor") and name in ev.ctor_methods:
+            cis = ev.prog.class_index.get(obj[1])
+            hit = ev.prog.find_method(cis[0], name) if cis else None
+            if hit is not None and not _is_abstract(hit[1]) and not _is_static(hit[1]):
+                r = self.inline(Closure(hit[1], {}, hit[0].module, cis[0], f"{cis[0].name}.{name}"), [obj] + list(args), kwargs)
+                if r is not None:
+                    return r
         # method of a NamedTuple built here
         if is_t(obj, "tuple") and obj in _NT_CLASS:
             cis = ev.prog.class_index.get(_NT_CLASS[obj][0])
@@ -1934,6 +1951,10 @@ _DEFAULT_INLINE = {
 _INLINE_STATIC = {
     ("MaskTrace", "build"), ("VmapTrace", "build"), ("ScanTrace", "build"),
 }
+
+
+def _load_store(tgt):
+    return tgt
 
 
 def _load(tgt):
@@ -2093,4 +2114,16 @@ def _is_opaque_fn(fn) -> bool:
         n = _dotted(d) or (_dotted(d.func) if isinstance(d, ast.Call) else "") or ""
         if n.split(".")[-1] in ("custom_jvp", "cache", "transformation_with_aux", "deprecated", "property"):
             return True
+    if _simple_generator(fn.body) is not None:
+        return False
     return any(isinstance(n, (ast.Yield, ast.YieldFrom)) for n in ast.walk(fn))
+
+
+def _simple_generator(body):
+    """`for x in it: yield e` as the only statement: the For node (the generator is the comprehension [e for x in it])"""
+    core_ = [b for b in body if not (isinstance(b, ast.Expr) and isinstance(b.value, ast.Constant))]
+    if (len(core_) == 1 and isinstance(core_[0], ast.For) and not core_[0].orelse and len(core_[0].body) == 1 and isinstance(core_[0].body[0], ast.Expr)
+            and isinstance(core_[0].body[0].value, ast.Yield) and core_[0].body[0].value.value is not None
+            and sum(isinstance(n, (ast.Yield, ast.YieldFrom)) for b in body for n in ast.walk(b)) == 1):
+        return core_[0]
+    return None
